@@ -173,6 +173,31 @@ def attribute_method_calls(an: Analysis, attr: str, owner_cls: str):
             elif isinstance(parent, ast.Call) and node in parent.args:
                 name = ast.unparse(parent.func)
                 result.append((fn, parent, 'arg', name))
+            elif isinstance(parent, ast.Assign) and parent.value is node and \
+                    len(parent.targets) == 1 and isinstance(parent.targets[0], ast.Name):
+                # a local alias of the attribute: its uses are uses of the attribute
+                alias = parent.targets[0].id
+                result.append((fn, parent, 'alias', alias))
+                for sub in _walk_own(fn.node):
+                    if not (isinstance(sub, ast.Name) and sub.id == alias
+                            and isinstance(sub.ctx, ast.Load)):
+                        continue
+                    up = parents.get(id(sub))
+                    if isinstance(up, ast.Attribute) and up.value is sub:
+                        top = parents.get(id(up))
+                        if isinstance(top, ast.Call) and top.func is up:
+                            result.append((fn, top, 'call', up.attr))
+                        else:
+                            result.append((fn, up, 'attr', up.attr))
+                    elif isinstance(up, ast.Subscript) and up.value is sub:
+                        result.append((fn, up, 'subscript', type(up.ctx).__name__))
+                    elif isinstance(up, (ast.For, ast.comprehension)) and up.iter is sub:
+                        result.append((fn, up, 'iter', None))
+                    elif isinstance(up, ast.Call) and sub in up.args:
+                        result.append((fn, up, 'arg', ast.unparse(up.func)))
+                    else:
+                        result.append((fn, up if up is not None else sub, 'other',
+                                       type(up).__name__ if up is not None else None))
             else:
                 result.append((fn, parent if parent is not None else node, 'other',
                                type(parent).__name__ if parent is not None else None))
